@@ -94,7 +94,7 @@ def _orientation(r):
     return [float(x) for x in m @ row] + [float(x) for x in m @ col], 'oblique'
 
 
-SCENARIOS = ['regular', 'regular', 'wobble', 'wobble', 'wobble_dups', 'wobble_gaps', 'dups', 'gaps', 'gaps_hint', 'dups_gaps', 'jitter_in', 'jitter_out',
+SCENARIOS = ['regular', 'regular', 'atol_only', 'rtol_only', 'wobble', 'wobble', 'wobble_dups', 'wobble_gaps', 'dups', 'gaps', 'gaps_hint', 'dups_gaps', 'jitter_in', 'jitter_out',
              'shear_in', 'shear_out', 'twin', 'hint_ok', 'hint_neg', 'hint_bad', 'unsorted', 'missing_jitter_in',
              'missing_jitter_out', 'irregular', 'single', 'all_same']
 
@@ -171,6 +171,20 @@ def _scenario(r, idx, want=None):
                 d = d / 100
         offs[j] = d * nrm
         expect_ok = sc == 'jitter_in'
+    elif sc in ('atol_only', 'rtol_only'):
+        # a tolerance given alone REPLACES the other one: with a tiny atol (1e-4 s) an interior plane 0.002 s off is refused
+        # although it is well inside the default rtol of 1 %; with a tiny rtol (1e-4) likewise
+        n = max(n, 3)
+        ks = [k0 + i for i in range(n)]
+        opts.pop('rtol', None)
+        opts.pop('atol', None)
+        if sc == 'atol_only':
+            opts['atol'] = 1e-4 * s
+        else:
+            opts['rtol'] = 1e-4
+        j = r.randrange(1, n - 1)
+        offs[j] = 0.002 * s * r.choice([-1, 1]) * nrm
+        expect_ok = False
     elif sc in ('missing_jitter_in', 'missing_jitter_out'):
         n = max(n, 3)
         ks = [k0 + 2 * i for i in range(n)]
@@ -344,7 +358,7 @@ def _check_expected(ctx, case, obs, sc, site='get_volume_positions'):
 
 def _check_order(ctx, case, obs, sc, site='get_volume_positions'):
     """accepted indices order the planes along the positive normal (and equal indices = same distance)"""
-    if obs[0] != 'ok' or sc['opts'].get('sort') is False:
+    if obs[0] != 'ok' or sc['opts'].get('sort') is False or len(obs[2]) != len(sc['positions']):
         return
     n = np.array(sc['normal'])
     d = [float(np.dot(np.array(p), n)) for p in sc['positions']]
@@ -419,7 +433,9 @@ def _position_cases(ctx, reqs, pend):
         reqs.append(('volumePositions', _margs(sc)))
         pend.append((case, obs, _is_exact(sc)))
         # permuting the input permutes the output (oracle on the implementation alone)
-        if len(sc['positions']) > 1 and sc['opts'].get('sort', True):
+        if obs[0] == 'ok' and len(obs[2]) != len(sc['positions']):
+            ctx.fail(case, {'what': 'number of volume indices differs from the number of positions', 'got': obs}, site='get_volume_positions')
+        elif len(sc['positions']) > 1 and sc['opts'].get('sort', True):
             perm = list(range(len(sc['positions'])))
             r.shuffle(perm)
             st2, val2 = _call(sp.get_volume_positions, [sc['positions'][k] for k in perm], sc['ori'], **sc['opts'])
@@ -675,6 +691,17 @@ def _assembly_cases(ctx, reqs, pend):
                 if len(hit) != 1 or not np.array_equal(v1.array[k], _stored_values(hit[0])):
                     ctx.fail(dict(case, slice=k), 'slice content is not the dataset at that position', site='get_volume_from_series')
                     break
+            # no hidden state: the same instances (same UIDs) moved elsewhere assemble to the moved volume
+            import copy as _copy
+            shift = np.array([_dy(r, -50, 50) for _ in range(3)])
+            moved = [_copy.deepcopy(d) for d in shuffled]
+            for d in moved:
+                d.ImagePositionPatient = [float(x) for x in np.array([float(x) for x in d.ImagePositionPatient]) + shift]
+            st2m, v2 = _call(hd.get_volume_from_series, moved)
+            if st2m != 'ok' or np.abs(np.array(v2.position) - (np.array(v1.position) + shift)).max() > 1e-6 * (1 + np.abs(shift).max() + np.abs(np.array(v1.position)).max()) \
+                    or not np.array_equal(v2.array, v1.array):
+                ctx.fail(dict(case, what='same instances moved'), {'what': 'volume does not follow the current positions of the datasets',
+                                                                  'status': st2m}, site='get_volume_from_series')
             # sort_datasets yields that order; along the positive normal of the volume convention
             if nsl > 1:
                 st2, srt = _call(sp.sort_datasets, shuffled)
@@ -732,6 +759,18 @@ def _assembly_cases(ctx, reqs, pend):
                 continue
             if not (np.array_equal(v0.array, v1.array) and np.array_equal(v0.affine, v1.affine)):
                 ctx.fail(case, {'what': 'volume depends on the order of the frames', 'affine0': v0.affine.tolist(), 'affine1': v1.affine.tolist()},
+                         site='Image.get_volume')
+            # no hidden state: the same instance (same UID) with every frame moved assembles to the moved volume
+            import copy as _copy
+            shift = np.array([_dy(r, -50, 50) for _ in range(3)])
+            moved = _copy.deepcopy(shuffled)
+            for it in moved.PerFrameFunctionalGroupsSequence:
+                pp = it.PlanePositionSequence[0]
+                pp.ImagePositionPatient = [float(x) for x in np.array([float(x) for x in pp.ImagePositionPatient]) + shift]
+            st2m, v2 = _call(lambda d: hd.Image.from_dataset(d, copy=False).get_volume(), moved)
+            if st2m != 'ok' or np.abs(np.array(v2.position) - (np.array(v1.position) + shift)).max() > 1e-6 * (1 + np.abs(shift).max() + np.abs(np.array(v1.position)).max()) \
+                    or not np.array_equal(v2.array, v1.array):
+                ctx.fail(dict(case, what='same instance moved'), {'what': 'volume does not follow the current frame positions', 'status': st2m},
                          site='Image.get_volume')
             # model: geometry and frame placement (L0 through get_volume_geometry; L2 through the private helper)
             fpos = [[float(x) for x in it.PlanePositionSequence[0].ImagePositionPatient] for it in shuffled.PerFrameFunctionalGroupsSequence]
